@@ -200,9 +200,14 @@ def impl_server(case, root, k):
     opened = list(fobj.contents_split)
     impl.did_change(srv, path, [lsp_change(c) for c in case["changes"]])
     res = list(srv.workspace[path].contents_split)
+    # the editor discards the buffer (close without saving) and opens the document again: the client now holds the disk text
+    impl.did_close(srv, path)
+    impl.did_open(srv, path)
+    fobj = srv.workspace.get(path)
+    reopened = list(fobj.contents_split) if fobj is not None else None
     impl.did_close(srv, path)
     os.remove(path)
-    return opened, res
+    return opened, res, reopened
 
 
 # ----------------------------------------------------------------------------- model
@@ -359,7 +364,10 @@ def run_server_cases(ctx, cases):
                 ctx.report("C02:server-open-failed", "didOpen did not register the document",
                            {"kind": "counterexample", "input": case})
                 continue
-            opened, got = res
+            opened, got, reopened = res
+            if reopened != opened:
+                ctx.report("C02:reopen-stale", "after closing without saving and opening again the server does not hold the disk text",
+                           {"kind": "counterexample", "input": case, "implementation": reopened, "oracle": opened, "stream": "server"})
             texts, dirty = client_history(case)
             if not in_document(case):
                 continue
